@@ -68,11 +68,20 @@ func checkPath(root protoreflect.Message, path []int32, res linker.Resolver) str
 // (google.protobuf.*Options), -1 if the path does not lead into one.
 func walkPath(root protoreflect.Message, path []int32, res linker.Resolver) (string, int) {
 	optAt := -1
-	why := walkPath1(root, path, res, &optAt)
+	var nv namedVal
+	why := walkPath1(root, path, res, &optAt, &nv)
 	return why, optAt
 }
 
-func walkPath1(root protoreflect.Message, path []int32, res linker.Resolver, optAt *int) string {
+// namedVal is what a path that ends at a name or a number of the descriptor (outside options) points at:
+// field "name", an element of "reserved_name", or field "number".
+type namedVal struct {
+	kind string // "name", "number" or ""
+	str  string
+	num  int64
+}
+
+func walkPath1(root protoreflect.Message, path []int32, res linker.Resolver, optAt *int, nv *namedVal) string {
 	m := root
 	md := root.Descriptor()
 	i := 0
@@ -147,6 +156,8 @@ func walkPath1(root protoreflect.Message, path []int32, res linker.Resolver, opt
 				}
 			} else if i < len(path) {
 				return fmt.Sprintf("component %d: path continues past scalar element of %s", i, fd.FullName())
+			} else if m != nil && *optAt < 0 && fd.Name() == "reserved_name" {
+				nv.kind, nv.str = "name", val.List().Get(idx).String()
 			}
 			continue
 		}
@@ -164,6 +175,13 @@ func walkPath1(root protoreflect.Message, path []int32, res linker.Resolver, opt
 		}
 		if i < len(path) {
 			return fmt.Sprintf("component %d: path continues past scalar field %s", i, fd.FullName())
+		}
+		if m != nil && has && *optAt < 0 {
+			if fd.Name() == "name" && fd.Kind() == protoreflect.StringKind {
+				nv.kind, nv.str = "name", val.String()
+			} else if fd.Name() == "number" && fd.Kind() == protoreflect.Int32Kind {
+				nv.kind, nv.num = "number", val.Int()
+			}
 		}
 	}
 	return ""
@@ -294,7 +312,14 @@ func srcinfoCase(in map[string]any) map[string]any {
 			var bads []any
 			ls := locs[key].([]any)
 			for i, loc := range fdp.GetSourceCodeInfo().GetLocation() {
-				why, optAt := walkPath(re.ProtoReflect(), loc.Path, resolver)
+				optAt := -1
+				var nv namedVal
+				why := walkPath1(re.ProtoReflect(), loc.Path, resolver, &optAt, &nv)
+				if nv.kind == "name" {
+					ls[i].(map[string]any)["vn"] = vhlib.Hx([]byte(nv.str))
+				} else if nv.kind == "number" {
+					ls[i].(map[string]any)["vi"] = nv.num
+				}
 				if why != "" {
 					bads = append(bads, []any{i, why})
 				}
